@@ -996,6 +996,9 @@ class HistogramBase(abc.ABC):
         if np.isscalar(other):
             array = np.asarray(other)
             scalar = cast(float, other)
+            if not config.free_arithmetics and scalar < 0:
+                # Also when all bins are empty: missed values and statistics would turn negative
+                raise ValueError("Cannot have negative frequencies.")
             try:
                 self._coerce_dtype(array.dtype)
             except ValueError as v:
@@ -1030,6 +1033,8 @@ class HistogramBase(abc.ABC):
         if isinstance(other, HistogramBase):
             raise TypeError("Division of two histograms is not supported.")
         elif np.isscalar(other):
+            if not config.free_arithmetics and other < 0:
+                raise ValueError("Cannot have negative frequencies.")
             self._coerce_dtype(np.float64)
             self.frequencies = self.frequencies / other
             # Not `other**2`: a numpy scalar would be squared in its own (possibly narrow) type
